@@ -8,8 +8,8 @@ VARIABLE i
 Init == i \in 1..Len(Rows)
 Next == UNCHANGED i
 Bad == SelectSeq([k \in 1..Len(Rows) |->
-                    [row |-> k, failed |-> SetToSeq(Failed(Rows[k].c, Rows[k].impl)),
-                     drift |-> ~Conforms(Rows[k].c, Rows[k].impl)]],
+                    LET v == Verdict(Rows[k].c, Rows[k].impl) IN
+                    [row |-> k, failed |-> SetToSeq(v.failed), drift |-> v.drift]],
                  LAMBDA r : r.failed # <<>> \/ r.drift)
 ASSUME JsonSerialize(IOEnv.VF_OUT, [n |-> Len(Rows), bad |-> Bad])
 =============================================================================
